@@ -29,3 +29,27 @@ Definition ck (rows : list string) (expected : option (list (list SRect))) (isb 
                       && Bool.eqb (is_strop (mat rows)) isb
   | _, _ => false
   end.
+
+(* ---------- polygon level ---------- *)
+From FrameModel Require Import Num.QcTac Strop.Polygon.
+
+Definition q (n : BinNums.Z) (d : BinNums.positive) : Qc := qc n d.
+Arguments q n%Z d%positive.
+
+Definition rect4_eqb (a b : Rect4) : bool :=
+  let '(a1, a2, a3, a4) := a in let '(b1, b2, b3, b4) := b in
+  Qceqb a1 b1 && Qceqb a2 b2 && Qceqb a3 b3 && Qceqb a4 b4.
+
+(* strop_decomposition: None (an assertion) or the [cx, cy, w, h] list, which must be the
+   rectangle list of one of the model's instances (the choice among instances follows
+   Python set iteration order) *)
+Definition ckp (vs : list Pt) (expected : option (list Rect4)) : bool :=
+  match strop_decomposition_all vs, expected with
+  | None, None => true
+  | Some alls, Some e => existsb (fun l => leqb rect4_eqb l e) alls
+  | _, _ => false
+  end.
+
+(* is_point_inside_polygon on a list of points *)
+Definition cki (vs : list Pt) (pts : list (Pt * bool)) : bool :=
+  forallb (fun pb => Bool.eqb (point_inside (fst pb) vs) (snd pb)) pts.
